@@ -52,7 +52,10 @@ def generate_direct(rng, tier: str, kind: dict) -> dict:
         if fam == 'v4vpn':
             return dict({'fam': 'v4vpn', 'p': f'10.{(i >> 16) & 255}.{(i >> 8) & 255}.{i & 255}/32', 'nh': '10.0.0.9', 'labels': [100 + i % 1000], 'rd': '65000:1'}, **ap)
         bits = rng.choice([32, 32, 24, 8])
-        return dict({'fam': 'v4u', 'p': str(__import__('ipaddress').ip_network(f'10.{(i >> 16) & 255}.{(i >> 8) & 255}.{i & 255}/{bits}', strict=False)), 'nh': '10.0.0.9'}, **ap)
+        # RFC 8950 for plain IPv4: in every other collection the IPv4 unicast routes name an IPv6 next hop and travel in MP_REACH_NLRI
+        # (one next hop per collection, as the Adj-RIB-Out groups them: the classic NEXT_HOP comes from the shared attributes)
+        nh = '2001:db8::1' if kind.get('nexthop_ext') and len(cols) % 2 == 0 else '10.0.0.9'
+        return dict({'fam': 'v4u', 'p': str(__import__('ipaddress').ip_network(f'10.{(i >> 16) & 255}.{(i >> 8) & 255}.{i & 255}/{bits}', strict=False)), 'nh': nh}, **ap)
 
     for _ in range(rng.randint(1, 3)):
         attrs = RT.gen_attrs(rng, rich=0.3)
@@ -117,6 +120,23 @@ def grid(tier: str):
                     ann.append(r)
                 plans.append({'mode': 'direct', 'micro_seed': 6000 + n, 'knobs': {'tick': 0.002, 'drift': 0.0, 'wall_step': 0.0}, 'kind': kind,
                               'collections': [{'attrs': {}, 'room': room, 'announce': ann, 'withdraw': []}]})  # fmt: skip
+    # classic IPv4: announces that end exactly on a full UPDATE (or up to one prefix short of it), then withdraws - the hand-over from
+    # the announce loop to the withdraw loop with nothing, or something, left unsent
+    for ap in (False, True):
+        per = 5 + (4 if ap else 0)
+        for k_ in (2, 5) if tier == 'quick' else (1, 2, 3, 5, 8):
+            for e in range(per):
+                for mult in (1, 2):
+                    n += 1
+                    rng = Rng(6000 + n)
+                    kind = RT.gen_kind(rng, 0)
+                    kind.pop('ap_local', None)
+                    kind.pop('ap_peer', None)
+                    kind.update({'extmsg': False, 'group_updates': True, 'addpath': ap, 'peer_drops': []})
+                    ann = [dict({'fam': 'v4u', 'p': f'10.1.{i >> 8}.{i & 255}/32', 'nh': '10.0.0.9'}, **({'pid': 1} if ap else {})) for i in range(k_ * mult)]
+                    wd = [dict({'fam': 'v4u', 'p': f'10.2.0.{i}/32', 'nh': '10.0.0.9'}, **({'pid': 1} if ap else {})) for i in range(2)]
+                    plans.append({'mode': 'direct', 'micro_seed': 6000 + n, 'knobs': {'tick': 0.002, 'drift': 0.0, 'wall_step': 0.0}, 'kind': kind,
+                                  'collections': [{'attrs': {}, 'room': per * k_ + e, 'announce': ann, 'withdraw': wd}]})  # fmt: skip
     return plans
 
 
@@ -128,6 +148,7 @@ def generate(rng, tier: str, index: int) -> dict:
         # the packer is also handed routes of a family the session did not negotiate (configured here, not offered by the peer)
         kind['peer_drops'] = rng.choice([[], [], [], ['v4u'], ['v6u'], ['v4l', 'v4vpn']])
         kind['nexthop_ext_l'] = 'v4l' not in kind['peer_drops'] and rng.chance(0.4)
+        kind['nexthop_ext'] = 'v4u' not in kind['peer_drops'] and rng.fork('nh-ext-u').chance(0.3)  # (a side stream: earlier plans keep their draws)
         return generate_direct(rng, tier, kind)
     mx = 65535 if kind['extmsg'] else 4096
     batches = []
@@ -285,7 +306,8 @@ def execute_direct(plan: dict) -> dict:
                     want_keys.add(key)
                     have = table.routes.get(key)
                     nlri_len = len(R.enc_prefix(r['p'])) + (4 if neg['addpath'] else 0) + (3 * len(r.get('labels', []))) + (8 if r.get('rd') else 0)
-                    slack = room - overhead[r['fam']] - nlri_len - (12 if r['fam'] == 'v4l' and ':' in r['nh'] else 0)  # an IPv6 next hop (RFC 8950) is 12 bytes longer
+                    over = overhead['v6u'] if r['fam'] == 'v4u' and ':' in r['nh'] else overhead[r['fam']]  # (RFC 8950: an IPv4 prefix with an IPv6 next hop travels in MP_REACH_NLRI)
+                    slack = room - over - nlri_len - (12 if r['fam'] == 'v4l' and ':' in r['nh'] else 0)  # an IPv6 next hop (RFC 8950) is 12 bytes longer
                     if slack < -1:
                         probes['over_limit_routes'] += 1
                         if have is not None:
